@@ -148,7 +148,14 @@ def run(ctx):
         v = [rng.randint(-4, 4) for _ in range(3)]
         theta = rng.uniform(-2 * math.pi, 2 * math.pi)
         scale = rng.choice([1.0, 0.37, 2.5])    # axis length must not matter
-        out = rotate_vector_around_an_axis(theta, Vector(n[0] * scale, n[1] * scale, n[2] * scale), Vector(*v))
+        try:
+            out = rotate_vector_around_an_axis(theta, Vector(n[0] * scale, n[1] * scale, n[2] * scale), Vector(*v))
+        except Exception as ex:  # noqa  (the function is total on non-zero axes: a failure is a finding, not a harness error)
+            if "clause:exception" not in bad:
+                bad["clause:exception"] = 1
+                ctx.violation("clause:exception", f"rotate(theta={theta:.6f}, axis={[c_ * scale for c_ in n]}, v={v}) raises {ex!r}",
+                              {"theta": theta, "n": n, "v": v, "scale": scale})
+            continue
         recs.append({"n": n, "v": v, "c": round(100 * math.cos(theta)), "s": round(100 * math.sin(theta)),
                      "r": [round(100 * out.x), round(100 * out.y), round(100 * out.z)], "theta": theta, "scale": scale})
     wd = tlc.workdir("c20")
